@@ -2,10 +2,10 @@
    Statements only. The ordering part is a property of the dispatch loop (Model/Sched.v) over the dependency edges that
    runner.build_tasks creates (Model/Graph.v, compared with the implementation's graph on every run): for every graph,
    every number of threads and every interleaving. Proofs: Proofs/SchedP.v. *)
-From Coq Require Import List Arith Bool.
+From Coq Require Import List Arith Bool Relations.
 Import ListNotations.
 From LCC Require Import Base.Util Model.Proj Model.Sched Model.Graph Model.Fixture Model.TaskSem Proofs.SchedP Proofs.ProtocolP
-     Proofs.GraphP Proofs.ShapeP Proofs.TeardownOrderP.
+     Proofs.GraphP Proofs.ShapeP Proofs.TeardownOrderP Proofs.FixtureP Proofs.NeededP.
 
 (* Setups come first and teardowns last: when a worker takes a task, every task it depends on — on success (a test on its
    suite's setup task, a suite setup on the session setup ...) or on mere completion (a suite teardown on the suite's setup
@@ -181,3 +181,38 @@ Theorem C03_setup_task_then_teardown_task : forall env env' l l' st en isst d st
     (rest = [] <-> to_res (setup_phase env l st en isst d pairs) = TkSuccess).
 Proof. exact setup_phase_then_teardown_phase. Qed.
 Print Assumptions C03_setup_task_then_teardown_task.
+
+(* ---- which fixtures are evaluated (fixture.py: get_fixtures_used_in_suite, get_scheduled_fixtures_for_scope; Model/Fixture.v,
+   compared with the real registry on every run of C14's and the run model's checks). ---- *)
+
+(* The suite-scoped fixtures scheduled for a suite, for every validated registry: exactly the suite-scoped fixtures that the
+   suite itself (injected fixtures, setup_suite arguments) or one of its tests that is going to run needs, directly or through
+   fixture parameters — a fixture needed only by disabled tests is not in the schedule —, each once, every fixture after the
+   suite-scoped fixtures it depends on. *)
+Theorem C03_suite_fixtures_exactly_the_needed_ones : forall reg inh s force, registry_ok reg ->
+  (forall f, needed_directly inh s force f -> reg_mem reg f = true) ->
+  exists fxs, get_fixtures_scheduled_for_suite reg inh s force = Ok fxs /\
+    NoDup (map fx_name fxs) /\
+    (forall y, In y (map fx_name fxs) <->
+       (exists f, needed_directly inh s force f /\ clos_refl_trans name (Edge (reg_find reg)) f y) /\ scope_of reg y ScSuite) /\
+    (forall d1 fx t1, fxs = d1 ++ fx :: t1 ->
+       forall y, In y (fparams fx) -> scope_of reg y ScSuite -> In y (map fx_name d1)).
+Proof. exact suite_schedule_is_what_is_needed. Qed.
+Print Assumptions C03_suite_fixtures_exactly_the_needed_ones.
+
+(* a suite none of whose tests is going to run has no suite fixture evaluated *)
+Theorem C03_nothing_to_run_nothing_evaluated : forall reg inh s,
+  has_enabled_tests inh s = false -> get_fixtures_scheduled_for_suite reg inh s false = Ok [].
+Proof. exact nothing_to_run_nothing_scheduled. Qed.
+Print Assumptions C03_nothing_to_run_nothing_evaluated.
+
+(* and the suite setup task, when it succeeds, has entered the setup of exactly that schedule, in schedule order, each once,
+   then setup_suite *)
+Theorem C03_suite_setup_task_evaluates_the_schedule : forall reg force inh sp s fxs env l st en isst d,
+  get_fixtures_scheduled_for_suite reg inh s force = Ok fxs ->
+  to_res (setup_phase env l st en isst d (init_pairs reg force inh sp s)) = TkSuccess ->
+  begins (to_main (setup_phase env l st en isst d (init_pairs reg force inh sp s))) =
+    map (fun fx => OFxSetup (fx_name fx)) fxs ++
+    match h_setup_suite (su_hooks s) with Some _ => [OSetupSuite sp] | None => [] end.
+Proof. exact suite_setup_task_enters_the_schedule. Qed.
+Print Assumptions C03_suite_setup_task_evaluates_the_schedule.
